@@ -1,7 +1,8 @@
 (* C02 — Bytes on the wire follow the RFC layouts. Statements only. *)
 From Coq Require Import List NArith Bool.
 Import ListNotations.
-From Rustun Require Import Base.Tlv Codec.MsgType Codec.EncodeInto Codec.EncodeMsg Codec.AttrValue Proofs.AttrValueProofs.
+From Rustun Require Import Base.Tlv Codec.MsgType Codec.EncodeInto Codec.EncodeMsg Codec.AttrValue Proofs.AttrValueProofs
+                           Codec.Wire Codec.WireFull Codec.Message Codec.Ignored Proofs.IgnoredProofs.
 Open Scope N_scope.
 
 (* the 14-bit message type: MessageType::as_u16 / From<u16> equal the RFC 8489 bit layout
@@ -10,3 +11,26 @@ Theorem C02_msg_type : forall m c, m < 4096 -> c < 4 ->
   as_u16 m c = of_bits (rfc_bits m c) /\ of_u16 (as_u16 m c) = (m, c).
 Proof. exact MsgType.C02_msg_type. Qed.
 Print Assumptions C02_msg_type.
+
+(* "Padding bytes and reserved bits that the RFCs say a receiver must ignore do not change what is decoded."
+   Codec/Ignored.v names those bits from the RFC texts (ign_mask per kind: the first byte of the address attributes, the 21 /
+   13 reserved bits of ERROR-CODE / ADDRESS-ERROR-CODE, the RFFU fields of CHANNEL-NUMBER, EVEN-PORT, REQUESTED-TRANSPORT,
+   the reserved bytes of the address-family attributes and of ICMP, the padding between PASSWORD-ALGORITHMS entries;
+   msg_mask: these plus the 0-3 padding bytes after every attribute). Two values / messages that agree outside the mask
+   decode to the same thing — every kind, every length, every setting of the masked bits *)
+Theorem C02_ignored_value : forall ud hdr ty v v',
+  same_outside (value_mask ty v) v v' = true -> av_dec_attr ud hdr ty v' = av_dec_attr ud hdr ty v.
+Proof. exact IgnoredProofs.dec_attr_ignores. Qed.
+Print Assumptions C02_ignored_value.
+
+Theorem C02_ignored_message : forall b b',
+  same_outside (msg_mask b) b b' = true -> decode_typed b' = decode_typed b.
+Proof. exact IgnoredProofs.decode_typed_ignores. Qed.
+Print Assumptions C02_ignored_message.
+
+(* the premise is satisfiable in a non-trivial way: a response whose reserved byte, 21 reserved bits, RFFU bits and
+   padding bytes are all changed (54 bits) *)
+Example C02_ignored_nonvacuous :
+  same_outside (msg_mask ex_b) ex_b ex_b' = true /\ diff_bits ex_b ex_b' = 54 /\
+  decode_typed ex_b = DOk 56 [(1, VOk (AvAddr false 32853 [192;0;2;1])); (9, VOk (AvErr 401 [85;110;97;117;116;104])); (24, VOk (AvEven true))].
+Proof. vm_compute. repeat split; reflexivity. Qed.
